@@ -13,7 +13,7 @@ Subset (everything else raises `Unsupported` for the function that contains it -
   function   ::= ret-type name '(' state-struct '*' p {',' param} ')' '{' stmt* '}'       ret-type: void | bool | int16_t | int
   param      ::= int16_t x | int x | bool x | [const] elem '*' p | int16_t '*' p
   stmt       ::= lvalue '=' expr ';' | lvalue ('+='|'-=') expr ';' | lvalue '++' ';' | lvalue '--' ';' (also prefix)
-               | int16_t/int/bool local [= expr] ';' | f(args) ';' | lvalue '=' f(args) ';'      (f translated before)
+               | int16_t/int/bool local = expr ';' | f(args) ';' | lvalue '=' f(args) ';'      (f translated before)
                | 'if' '(' expr ')' stmt ['else' stmt] | '{' stmt* '}' (as a branch) | 'return' [expr] ';' | ';'
   lvalue     ::= p '->' scalar-field | p '->' array-field '[' expr ']' | p '->' array-field (= array parameter)
                | '*' q | local
@@ -850,9 +850,9 @@ class FuncTranslator:
                         v = self.as_bool(v, s, env) if ct == "bool" else self.fits(self.as_int(v, s), ct, s)
                         out.append(pad + "let %s := %s" % (self.lname(nm), v.text))
                     else:
-                        # indeterminate value in C; reading it before an assignment is undefined.  The model starts it at 0 / false.
-                        self.side.append("local '%s' is assigned before it is read" % nm)
-                        out.append(pad + "let %s := %s" % (self.lname(nm), "false" if ct == "bool" else "0"))
+                        # indeterminate value in C; reading it before an assignment is undefined and the translator does no
+                        # definite-assignment analysis
+                        self.fail(s, "local '%s' declared without an initialiser" % nm)
                     env.locals[nm] = ct
                     env.order.append(nm)
                 continue
